@@ -388,6 +388,83 @@ def r6_variant_no_post_init(chk):
               what="a bare #[parent] on a variant would produce a post-init body in variant mode", found=pushes)
 
 
+def emit_counter_rule(chk, rule):
+    """The positional slot a struct line is rendered for (tuple destinations: `other.<n> = ..`) is the EMISSION position: the number of
+    fragments pushed so far. Counter discipline in struct_init_block_inner: starts at 0, is only ever `+= 1`-ed, and exactly once next to
+    every fragment pushed inside the member loop (skipped ghost / parent members push nothing and must not move it)."""
+    from ..src import calls
+    fi = chk.repo.fn(EXPAND, "struct_init_block_inner")
+    chk.rule(rule, "emission counter: the position handed to render_struct_line counts the fragments pushed so far (init 0; `+= 1` exactly once per push in the member loop; no other write)", floor=4)
+    pos = {render(c["args"][3]).replace(" ", "") for c in calls(fi.body, "render_struct_line") if len(c["args"]) >= 4}
+    if not pos:
+        raise Inconclusive("struct_init_block_inner: no render_struct_line call with a position argument")
+    if len(pos) != 1:
+        raise Inconclusive(f"struct_init_block_inner: several position expressions {sorted(pos)}")
+    v = pos.pop()
+    vecs = {render(n["recv"]).replace(" ", "") for n in walk(fi.body) if n.get("k") == "MethodCall" and n["method"] == "push"}
+    if re.fullmatch(r"\w+\.len\(\)", v) and v[:-6] in vecs:
+        chk.ok(rule, "emit-counter/len", EXPAND, fi.line)
+        return
+    if not re.fullmatch(r"\w+", v):
+        raise Inconclusive(f"struct_init_block_inner: position argument `{v}` is neither a local counter nor <fragments>.len()")
+    def pname(p_):
+        p_ = p_.get("pat") if p_.get("k") == "PType" else p_
+        return p_.get("name") if p_.get("k") == "PIdent" else None
+    lets = [st for st in walk(fi.body) if st.get("k") == "Let" and pname(st["pat"]) == v]
+    if len(lets) != 1 or lets[0].get("init") is None:
+        raise Inconclusive(f"struct_init_block_inner: counter `{v}` is not a single initialised local")
+    chk.expect(rule, "emit-counter/init", render(lets[0]["init"]).strip() == "0", EXPAND, lets[0]["line"], "emission counter does not start at 0", expected="0", found=render(lets[0]["init"])[:40])
+    loops = [n for n in walk(fi.body) if n.get("k") in ("While", "ForLoop", "Loop") and any(True for _ in calls(n["body"], "render_struct_line"))]
+    if len(loops) != 1:
+        raise Inconclusive(f"struct_init_block_inner: {len(loops)} member loops found")
+    loop = loops[0]
+
+    def is_write(n):
+        return (n.get("k") == "Binary" and n["op"].endswith("=") and n["op"] not in ("==", "!=", "<=", ">=") and render(n["l"]).strip() == v) or \
+               (n.get("k") == "Assign" and render(n.get("l") or n.get("left") or {}).strip() == v)
+    writes = [n for n in walk(fi.body) if is_write(n)]
+    good_w = [n for n in writes if n.get("k") == "Binary" and n["op"] == "+=" and render(n["r"]).strip() == "1"]
+    for n in writes:
+        if n not in good_w:
+            chk.bad(rule, "emit-counter/write", EXPAND, n["line"], "emission counter written other than by `+= 1` (a skipped member moves the slot of every later field)", expected=f"{v} += 1", found=render(n)[:60])
+    # every statement list inside the loop: pushes to the fragment vector and increments pair up, push first
+    frag = None
+    rows = []
+    for b in walk(loop["body"]):
+        if b.get("k") != "Block":
+            continue
+        seq = []
+        for st in b["stmts"]:
+            e = st.get("expr") if st.get("k") in ("ExprStmt", "Expr", "Semi") else None
+            if e is None:
+                continue
+            if e.get("k") == "MethodCall" and e["method"] == "push":
+                seq.append(("push", render(e["recv"]).strip(), e["line"]))
+            elif is_write(e):
+                seq.append(("inc", v, e["line"]))
+        if not seq:
+            continue
+        pushes = [x for x in seq if x[0] == "push"]
+        incs = [x for x in seq if x[0] == "inc"]
+        if pushes and frag is None:
+            frag = pushes[0][1]
+        ok = len(pushes) == len(incs) and all(seq[2 * i][0] == "push" and seq[2 * i + 1][0] == "inc" for i in range(len(pushes))) and all(p_[1] == frag for p_ in pushes)
+        rows.append((ok, seq))
+    n_pairs = len(rows)
+    n_ok = sum(1 for ok, _ in rows if ok)
+    for k_, (ok, seq) in enumerate(rows):
+        key = f"emit-counter/block#{k_}"
+        if ok:
+            chk.ok(rule, key, EXPAND, seq[0][2])
+        elif n_ok >= 2:
+            # the per-branch `push; += 1` discipline is in use (other branches follow it) and this branch deviates
+            chk.bad(rule, key, EXPAND, seq[0][2], "fragment pushes and counter increments do not pair up one to one in this branch of the member loop", expected="push; += 1", found=[x[0] for x in seq])
+        else:
+            chk.inconc(rule, f"counter discipline of the member loop is not in the per-branch `push; += 1` form ({[x[0] for x in seq]})")
+    if n_pairs < 3:
+        chk.inconc(rule, f"only {n_pairs} push/increment branches found in the member loop (3 confirmed by hand)")
+
+
 def run(chk):
     chk.guard("R6", lambda: r6_variant_no_post_init(chk))
     chk.guard("R1", lambda: r1_r2(chk))
@@ -461,6 +538,7 @@ def run(chk):
         if n < 2:
             chk.inconc("R10", f"only {n} shapes of Field::from_syn evaluated")
     chk.guard("R10", r10)
+    chk.guard("R12", lambda: emit_counter_rule(chk, "R12"))
 
     def r11():
         # shape flags of the deriving type / of a variant: named_fields <=> Fields::Named, unit <=> Fields::Unit (they select the
